@@ -343,6 +343,39 @@ pub fn run(ctx: &Ctx, rep: &mut Report) {
             }
         }
         o.check("random valid encoding", &base, true);
+        // "an equal proof": equality of decoded proofs is equality of their encodings - two encodings differing in one
+        // element (any position) decode to unequal proofs, a proof equals its own clone and its re-decoding
+        if let Ok(pa) = Proof::from_bytes(&base) {
+            let n_el = (base.len() - 1) / 32;
+            let el = (rng.next_u32() as usize) % n_el;
+            let is_scalar = el < d || el == d + 3 || el == d + 4;
+            let mut other = base.clone();
+            if is_scalar {
+                let mut sb = [0u8; 32];
+                sb.copy_from_slice(&base[1 + 32 * el..33 + 32 * el]);
+                let s2 = Scalar::from_bytes_mod_order(sb) + Scalar::ONE;
+                other[1 + 32 * el..33 + 32 * el].copy_from_slice(s2.as_bytes());
+            } else {
+                other[1 + 32 * el + (rng.next_u32() as usize) % 31] ^= 1 << (rng.next_u32() % 8);
+            }
+            o.rep.count("equality_probes", 1);
+            #[allow(clippy::redundant_clone)]
+            let same = pa == pa.clone() && Proof::from_bytes(&base).map(|x| x == pa).unwrap_or(false);
+            if !same {
+                let rp = json!({"tier": if ctx.thorough() {"thorough"} else {"quick"}, "seed": ctx.seed, "leg": leg, "case": id, "descr": {"what": "a proof is not equal to its clone / its re-decoding"}});
+                o.rep.violation("C15 equality-not-reflexive", "a decoded proof does not compare equal to its clone or to a second decoding of the same bytes", rp);
+            }
+            if let Ok(pb) = Proof::from_bytes(&other) {
+                if pa == pb {
+                    let rp = json!({"tier": if ctx.thorough() {"thorough"} else {"quick"}, "seed": ctx.seed, "leg": leg, "case": id, "descr": {"what": "unequal encodings compare equal", "element": el, "degree": d, "rounds": k}});
+                    o.rep.violation(
+                        &format!("C15 equality-ignores-element [{}]", if is_scalar { "scalar" } else { "point" }),
+                        &format!("two proofs whose encodings differ in element {el} (degree {d}, {k} rounds) compare equal: `equal proof` would not mean equal bytes"),
+                        rp,
+                    );
+                }
+            }
+        }
         for mu in 0..24 {
             let mut b = base.clone();
             let what = match (f + mu) % 8 {
